@@ -36,6 +36,13 @@ def gen(rng, max_m, max_n):
     ops.append({"op": "match", "target": rng.choice(["trapezoid", "rectangle"]), "ref": "rectangle",
                 "alpha": rng.choice([1, 2, 3]), "strategy": rng.choice(["closest", "closest", "lower", "higher"])})
     c["ops"] = ops
+    if rng.random() < 0.2 and not c.get("int_y") and not c.get("int_x"):
+        # the series comes as a two-column table (Weaver.from_2d_array): also the shortest one, two rows
+        c["from2d"] = True
+        if rng.random() < 0.4:
+            c["x"], c["y"] = c["x"][:2], c["y"][:2]
+            if c["y"][0] == c["y"][1]:
+                c["y"][1] = str(Fraction(c["y"][1]) + 1)
     if rng.random() < 0.15 and len(c["y"]) >= 4:
         # one reading many orders of magnitude above the rest, early in the series (a fill value, a burst): every later
         # interval's average is still a local quantity
